@@ -275,4 +275,4 @@ Example C07_reachable_premises_satisfiable :
   exists p eh, key_history s6_cfg [9] s6_vrf_label s6_vrf_proof s6_st s6_user HComplete = DOk (p, eh) /\
     key_history_verify s6_cfg s6_check [] (snd eh) (fst eh) s6_user p HComplete false = Some [VRes 2 2 [6]; VRes 1 1 [5]] /\
     key_history_verify s6_cfg s6_check [] (snd eh) (fst eh) s6_user p HComplete true = Some [VRes 2 2 [6]; VRes 1 1 [5]].
-Proof. exact (proj1 (proj2 (proj2 (proj2 (proj2 (proj2 (proj2 (proj2 (proj2 (proj2 (proj2 s6_premises))))))))))). Qed.
+Proof. destruct s6_premises as (_ & _ & _ & _ & _ & _ & _ & _ & _ & _ & _ & H & _). exact H. Qed.
